@@ -1073,7 +1073,7 @@ func (c *Ctx) signerVerifierTables(rule string) bool {
 			g := cl.Call.StaticCallee()
 			return g != nil && g.String() == "crypto/ecdsa.Sign"
 		}) {
-			if strings.Contains(c.Path(cl.Call.Args[2], nil), getHasher.Name()+"($0.privateKey.PublicKey.Curve)") {
+			if strings.Contains(c.Path(cl.Call.Args[2], nil), fname(getHasher)[strings.LastIndex(fname(getHasher), ".")+1:]+"($0.privateKey.PublicKey.Curve)") {
 				okH = true
 			}
 		}
